@@ -18,7 +18,7 @@ def run(ids):
     checks = json.load(open(os.path.join(VERIF, "harness", "checks.json")))
     env = dict(os.environ, VERIF_VARIANT="cov", VERIF_COVMAP=COV)
     for i in ids or sorted(checks):
-        p = subprocess.run([os.path.join(VERIF, "check"), i, "--tier", "quick", "--no-evidence"], env=env, stdout=subprocess.PIPE, stderr=subprocess.STDOUT, text=True)
+        p = subprocess.run([os.path.join(VERIF, "check"), i, "--tier", "quick", "--no-evidence", "--deadline", os.environ.get("VERIF_COV_DEADLINE", "1200")], env=env, stdout=subprocess.PIPE, stderr=subprocess.STDOUT, text=True)
         print(i, (p.stdout.strip().splitlines() or ["?"])[-1][:200], flush=True)
 
 
